@@ -259,7 +259,7 @@ def runStep (s : RunSt) (line : String) : RunSt × String :=
     -- loops): the only requirement is that the engine survives
     match kv rest "kind", kvNat rest "ms", kvNat rest "workers" with
     | some k, some ms, some w =>
-      if !(k == "metrics" || k == "queue" || k == "all") || ms < 1 || ms > 5000 || w < 1 || w > 16 then (s, "bad-op")
+      if !(k == "metrics" || k == "queue" || k == "all") || ms < 1 || ms > 2000 || w < 1 || w > 16 then (s, "bad-op")
       else match s.loaded with
         | none => (s, "not-loaded")
         | some _ => (s, "done")
